@@ -115,6 +115,9 @@ type obs struct {
 	logIP                        string // the access log's request.client_ip field (LoggableHTTPRequest)
 	logHas                       bool
 	ctx                          context.Context // the prepared request's context (vars map), to read what reverse_proxy stored
+	spoil                        string          // op erq: what the stage-one handler writes into r.RemoteAddr (hasSpoil)
+	hasSpoil                     bool
+	remoteHostPh                 string // {http.request.remote.host} as the probing handler's replacer expands it
 }
 
 var fwdNames = [3]string{"X-Forwarded-For", "X-Forwarded-Proto", "X-Forwarded-Host"}
@@ -125,6 +128,10 @@ type Probe struct {
 	Ranges []string `json:"ranges,omitempty"` // evaluated with the real `client_ip` matcher (ip_matchers.go)
 
 	CEL bool `json:"cel,omitempty"` // also evaluate the CEL forms client_ip(…) / remote_ip(…)
+
+	// op erq: a stage-one handler sits in the PRIMARY route, in front of whatever raises the error / of the outer
+	// reverse_proxy: it records nothing, stores nil under the omitted fields and (per request) overwrites r.RemoteAddr
+	Stage1 bool `json:"stage1,omitempty"`
 
 	cm  *caddyhttp.MatchClientIP
 	rm  *caddyhttp.MatchRemoteIP
@@ -160,6 +167,15 @@ func (*Probe) CaddyModule() caddy.ModuleInfo {
 }
 
 func (p *Probe) ServeHTTP(w http.ResponseWriter, r *http.Request, next caddyhttp.Handler) error {
+	if p.Stage1 {
+		if o, ok := r.Context().Value(obsKey{}).(*obs); ok && o.hasSpoil {
+			r.RemoteAddr = o.spoil
+		}
+		for _, n := range p.Omit {
+			r.Header[n] = nil
+		}
+		return next.ServeHTTP(w, r)
+	}
 	if o, ok := r.Context().Value(obsKey{}).(*obs); ok {
 		o.probed = true
 		o.clientIP, _ = caddyhttp.GetVar(r.Context(), caddyhttp.ClientIPVarKey).(string)
@@ -175,6 +191,7 @@ func (p *Probe) ServeHTTP(w http.ResponseWriter, r *http.Request, next caddyhttp
 		}
 		if repl, ok := r.Context().Value(caddy.ReplacerCtxKey).(*caddy.Replacer); ok {
 			o.placeh = repl.ReplaceAll("{http.vars.client_ip}", "")
+			o.remoteHostPh = repl.ReplaceAll("{http.request.remote.host}", "")
 		}
 		o.tmplIP = (templates.TemplateContext{Req: r}).ClientIP()
 		enc := zapcore.NewMapObjectEncoder()
@@ -265,6 +282,8 @@ func register() {
 		caddy.RegisterModule(&Probe{})
 		caddy.RegisterModule(Capture{})
 		caddy.RegisterModule(DynSource{})
+		caddy.RegisterModule(downTransport{})
+		caddy.RegisterModule(okTransport{})
 	})
 }
 
@@ -295,6 +314,9 @@ type kase struct {
 	lb         int    // load-balancing policy: 0 default, 1 client_ip_hash over three upstreams, 2 cookie
 	mode       int    // 0 plain GET over HTTP/1.1, 1 websocket over HTTP/2 (extended CONNECT with :protocol)
 	hops       int    // request header ops of reverse_proxy: 0 none, 1 set an unrelated field, 2 delete X-Forwarded-Host
+	via        int    // op erq: 0 = the primary route; 1|2 handle_errors routes; 3 handle_response routes (paths.go)
+	spoil      string // op erq: what the stage-one handler writes into r.RemoteAddr
+	hasSpoil   bool
 }
 
 func listField(xs []string, isNil bool, hexed bool) string {
@@ -574,6 +596,9 @@ func (k *kase) table() string {
 		}
 	}
 	scan(k.remote)
+	if k.hasSpoil {
+		scan(k.spoil)
+	}
 	if k.inc {
 		scan(virtualRemote) // the address templates' httpInclude gives its virtual request
 	}
@@ -736,7 +761,7 @@ func (k *kase) cfgKey() string {
 		srv = "dyn" // one provisioned server serves every range set
 	}
 	return fmt.Sprintf("%s|%s|%d|%s|%v|%d", srv, listField(k.cih, k.cihNil, true), k.strict,
-		listField(k.hT, false, false), k.omit, k.hops*10+k.lb)
+		listField(k.hT, false, false), k.omit, k.via*100+k.hops*10+k.lb)
 }
 
 func (p *prop) server(k *kase) (*caddyhttp.Server, error) {
@@ -818,6 +843,9 @@ func (p *prop) server(k *kase) (*caddyhttp.Server, error) {
 			map[string]any{"handler": "static_response", "headers": plain, "body": "{{httpInclude \"/inner\"}}"}}},
 		map[string]any{"handle": []any{probe, rp}},
 	}
+	if k.via != 0 {
+		k.pathRoutes(srv, probe, rp, omit)
+	}
 	httpApp, _ := json.Marshal(map[string]any{"servers": map[string]any{"s": srv}})
 	cfg := &caddy.Config{
 		Admin: &caddy.AdminConfig{Disabled: true},
@@ -886,7 +914,7 @@ func (p *prop) serve(k *kase, hdrs []hdrField) (string, *obs, error) {
 	for _, f := range hdrs {
 		h.Add(f.name, f.value)
 	}
-	o := &obs{failLeft: k.fails}
+	o := &obs{failLeft: k.fails, spoil: k.spoil, hasSpoil: k.hasSpoil}
 	if k.srvDyn {
 		o.dynRanges, _ = parsePrefixes(k.srvT)
 		if o.dynRanges == nil {
@@ -1004,7 +1032,8 @@ func (p *prop) serve(k *kase, hdrs []hdrField) (string, *obs, error) {
 			" xff=" + show(sets[0]) + " xfp=" + show(sets[1]) + " xfh=" + show(sets[2]), o, nil
 	}
 	if !o.sent {
-		if w.Code == 500 {
+		if w.Code == 500 || k.via != 0 {
+			// (a failing error route answers with the FIRST error's status)
 			return head + " err", o, nil
 		}
 		return head + " status=" + strconv.Itoa(w.Code), o, nil
@@ -1024,6 +1053,8 @@ func (p *prop) Run(line string) core.Outcome {
 		return p.runPP(f)
 	} else if len(f) > 0 && f[0] == "seq" {
 		return p.runSeq(f)
+	} else if len(f) > 0 && f[0] == "erq" {
+		return p.runErq(f)
 	}
 	k, ok := parseLine(line)
 	if !ok {
